@@ -10,7 +10,7 @@ from .queries import ancestors
 
 CLASSES = ("uniform", "uniform", "same_base_two_worlds", "with_factual", "irrelevant_subscript", "reflexive_consistent",
            "reflexive_inconsistent", "worlds_differ_irrelevantly", "contradictory_pair", "single", "observe_subscripts",
-           "observe_subscripts")
+           "observe_subscripts", "cross_world")
 
 
 def _conj(rng, gd, name=None, max_subs=2, world=None):
@@ -84,6 +84,15 @@ def random_event(rng, gd, cls=None, max_items=3):
                 ev.append([v, world, not s])
         if rng.random() < 0.45:  # the same variable also in the factual world
             ev.append([y, [], rng.random() < 0.5])
+        n_items = max(n_items, len(ev))
+    elif cls == "cross_world" and len(nodes) >= 3:
+        # two (or three) different variables under opposite settings of one common variable, preferably an ancestor
+        x = rng.choice(nodes)
+        desc = [v for v in nodes if v != x and x in ancestors(gd, [v])]
+        pool = desc if len(desc) >= 2 and rng.random() < 0.8 else [v for v in nodes if v != x]
+        picked = rng.sample(pool, min(len(pool), rng.choice([2, 2, 3])))
+        for j, v in enumerate(picked):
+            ev.append([v, [[x, bool(j % 2)]], rng.random() < 0.4])
         n_items = max(n_items, len(ev))
     elif cls == "contradictory_pair":
         c = _conj(rng, gd)
